@@ -114,9 +114,35 @@ def evaluate(ids, seeds=("0",), tier="quick"):
     return 0
 
 
+def import_round(wt, pid, first_index):
+    """Copies <wt>/SEEDED/{patch,demo,notes}{1,2} to seeded/<pid>-<n>/ and confirms each."""
+    for i in (1, 2):
+        src = os.path.join(wt, "SEEDED")
+        if not os.path.exists(os.path.join(src, "patch%d.diff" % i)):
+            print("no patch%d in %s" % (i, src))
+            continue
+        sid = "%s-%d" % (pid, first_index + i - 1)
+        d = os.path.join(VERIF, "seeded", sid)
+        os.makedirs(d, exist_ok=True)
+        shutil.copy(os.path.join(src, "patch%d.diff" % i), os.path.join(d, "patch.diff"))
+        shutil.copy(os.path.join(src, "demo%d.py" % i), os.path.join(d, "demo.py"))
+        notes = open(os.path.join(src, "notes%d.md" % i)).read()
+        open(os.path.join(d, "notes.md"), "w").write(notes)
+        c = confirm(d)
+        meta = {"id": sid, "property": pid, "round": 2,
+                "source": "independent sub-agent given only the property text, a list of mechanisms already used in round 1, and a scratch worktree",
+                "needs_to_manifest": notes[:2500],
+                "confirmed_by": "tools_seeded.py confirm (scratch worktree of /repo HEAD, private TMPDIR): suite with patch, demo without and with patch",
+                "confirmation": c}
+        json.dump(meta, open(os.path.join(d, "meta.json"), "w"), indent=1, sort_keys=True)
+        print(sid, "confirmed" if c.get("confirmed") else "NOT CONFIRMED", json.dumps(c)[:300])
+
+
 if __name__ == "__main__":
     if sys.argv[1] == "confirm":
         print(json.dumps(confirm(sys.argv[2]), indent=1))
+    elif sys.argv[1] == "import":
+        import_round(sys.argv[2], sys.argv[3], int(sys.argv[4]))
     else:
         seeds = tuple(os.environ.get("SEEDS", "0").split())
         sys.exit(evaluate(sys.argv[2:], seeds=seeds, tier=os.environ.get("TIER", "quick")))
